@@ -72,7 +72,9 @@ struct Lower {
     { RIns i; i.k = RIns::MOV; i.dst = cnt; i.a = bound_src; emit(i); }
     int L = (int)R->code.size();
     { RIns i; i.k = RIns::JZ; i.a = cnt; emit(i); }
+    int b0 = (int)R->code.size();
     if (body) block(*body); else body_fn();
+    R->loop_bodies.push_back({b0, (int)R->code.size()});
     { RIns i; i.k = RIns::DECR; i.dst = cnt; emit(i); }
     { RIns i; i.k = RIns::JMP; i.target = L; emit(i); }
     R->code[L].target = (int)R->code.size();
@@ -89,7 +91,9 @@ struct Lower {
       case Stmt::WHILE: {
         int L = (int)R->code.size();
         { RIns i; i.k = RIns::JZ; i.a = V(s.var); emit(i); }
+        int b0 = (int)R->code.size();
         block(s.body);
+        R->loop_bodies.push_back({b0, (int)R->code.size()});
         { RIns i; i.k = RIns::JMP; i.target = L; emit(i); }
         R->code[L].target = (int)R->code.size();
         { RIns e; e.k = RIns::EVENT; e.ev_kind = 2; e.ev_id = s.id; emit(e); }
@@ -195,6 +199,14 @@ RefRun ref_run(const RProgram &P, long long max_steps, size_t max_events) {
     if (v >= WORD_MAX) out.out_of_range = true;
     if (o.k == Opd::VAR) a.vars[o.idx] = v; else if (o.k == Opd::TMP) a.tmps[o.idx] = v;
   };
+  auto user_jump = [&](int routine, int from, int to) {
+    if (to <= from) out.jumps_backward++;
+    for (auto &r : P.routines[routine].loop_bodies) {
+      bool fin = from >= r.first && from < r.second, tin = to >= r.first && to < r.second;
+      if (tin && !fin) out.jumps_into_loop++;
+      if (fin && !tin) out.jumps_out_of_loop++;
+    }
+  };
   auto snapshot = [&](std::vector<RefAct> &acts) {
     for (auto &a : st) acts.push_back({a.routine, a.vars});
   };
@@ -216,15 +228,16 @@ RefRun ref_run(const RProgram &P, long long max_steps, size_t max_events) {
       case RIns::ADDC: wr(a, i.dst, rd(a, i.a) + i.c); a.pc++; break;
       case RIns::SUBC: { long long v = rd(a, i.a) - i.c; wr(a, i.dst, v < 0 ? 0 : v); a.pc++; break; }
       case RIns::DECR: { long long v = rd(a, i.dst) - 1; wr(a, i.dst, v < 0 ? 0 : v); a.pc++; break; }
-      case RIns::JMP: a.pc = i.target; break;
+      case RIns::JMP: if (!i.goto_label.empty()) user_jump(a.routine, a.pc, i.target); a.pc = i.target; break;
       case RIns::JZ: if (rd(a, i.a) == 0) a.pc = i.target; else a.pc++; break;
-      case RIns::JEQ: if (rd(a, i.a) == i.c) a.pc = i.target; else a.pc++; break;
+      case RIns::JEQ: if (rd(a, i.a) == i.c) { user_jump(a.routine, a.pc, i.target); a.pc = i.target; } else a.pc++; break;
       case RIns::CALL: {
         std::vector<long long> args;
         for (auto &o : i.args) args.push_back(rd(a, o));
         Opd ret = i.dst;
         a.pc++;
         int callee = i.callee;
+        out.calls++;
         push(callee);  // invalidates `a`
         Act &n = st.back();
         n.ret = ret;
@@ -242,6 +255,7 @@ RefRun ref_run(const RProgram &P, long long max_steps, size_t max_events) {
       case RIns::STOP:
         out.steps--;  // halting is not a step
         out.finished = true; out.stopped_by_stop = true;
+        if (st.size() > 1) out.stop_in_callee++;
         snapshot(out.final_acts);
         return out;
       case RIns::FINISH:
